@@ -106,6 +106,11 @@ func (s *Sink) ID() string {
 // snapshot, this function expects no data to be written after the header, and
 // simply records the path to the WAL directory for processing on Close.
 func (s *Sink) Write(p []byte) (n int, err error) {
+	if len(p) == 0 {
+		// Nothing to write, regardless of where we are in the stream.
+		return 0, nil
+	}
+
 	// If we don't yet have a header, try to decode one.
 	if s.header == nil {
 		n, err := s.buf.Write(p)
